@@ -507,6 +507,9 @@ class Circuit:
         except Exception as err:
             # add the block name
             add_note(err, f"block: {blk}, initialization error")
+            # the error must stop the simulation even if the caller suppresses it; that could
+            # happen when a pending event makes another block initialize this block early
+            blk.circuit.abort(err)
             raise
 
     def _init_sblocks_sync_1(self) -> None:
